@@ -377,8 +377,19 @@ impl ProcfsHandle {
         // NOTE: There is technically a race here, but it relies the target path
         //       being a magic-link and then another thing being mounted on top.
         //       This is the same race as below.
-        if self.readlink(base, subpath).is_err() {
-            return self.open(base, subpath, oflags).map(File::from);
+        //
+        // Only do so if the readlink failed *because* the target is not a
+        // symlink (readlinkat(2) gives ENOENT for an empty path relative to a
+        // non-symlink, and EINVAL otherwise). Any other failure tells us
+        // nothing about the target, and falling back to O_NOFOLLOW for what
+        // may well be a magic-link would hand an O_PATH caller the link
+        // itself rather than the file it refers to.
+        match self.readlink(base, subpath) {
+            Ok(_) => {}
+            Err(err) if matches!(err.kind().errno(), Some(libc::ENOENT) | Some(libc::EINVAL)) => {
+                return self.open(base, subpath, oflags).map(File::from);
+            }
+            Err(err) => return Err(err).wrap("check whether procfs target is a symlink"),
         }
 
         // Get a no-follow handle to the parent of the magic-link.
